@@ -20,7 +20,7 @@ Driver handler for C18.
 `<json>` = `null` `(b true)` `(n (s …))` `(str (s …))` `(arr …)` `(obj ((s …) <json>)…)`.
 `<req>` = `(add <content>)` `(replace <content>)` `(remove <ns?> <name?>)` `clear` `deploy`
 `(eval <model> <invocable> ok|bad <jv>)` with `<content>` = `none` | `b64` | `utf8` | `xml` |
-`(m ns name builds)` and `<ns?>` = `none` | atom.
+`(m ns name builds)` and `<ns?>` = `none` | atom | `(s …)` (names with white space are sent as `(s …)`).
 -/
 
 namespace Dmn.Driver.C18
@@ -63,18 +63,26 @@ def codec : Codec where
     | ["m", ns, name, b] => .ok ⟨ns, name, b == "true"⟩
     | _ => .error "xml".toList
 
+/-- a namespace / model name: an atom, or `(s …)` when it has white space or other characters an atom cannot carry -/
+def nameOf : Sexp → Option String
+  | .atom a => some a
+  | x => Sexp.str? x
+
 def contentOf : Sexp → Option (Option (List Char))
   | .atom "none" => some none
   | .atom "b64" => some (some ['b', '6', '4'])
   | .atom "utf8" => some (some ['u', 't', 'f', '8'])
   | .atom "xml" => some (some ['x', 'm', 'l'])
-  | .list [.atom "m", .atom ns, .atom name, .atom b] => some (some ("\n".intercalate ["m", ns, name, b]).toList)
+  | .list [.atom "m", ns, name, .atom b] => do
+    let ns ← nameOf ns
+    let name ← nameOf name
+    pure (some ("\n".intercalate ["m", ns, name, b]).toList)
   | _ => none
 
 def optAtom : Sexp → Option (Option String)
   | .atom "none" => some none
   | .atom a => some (some a)
-  | _ => none
+  | x => (Sexp.str? x).map some
 
 /-- The evaluator oracle of the driver: the request carries the value a deployed model
 answers (computed by the harness from the alphabet: literal decision, echo decision,
